@@ -125,6 +125,7 @@ func NewBuilder(targetDir string, fetcher PackageFetcher, registryClient Registr
 // If the returned diagnostics contains errors then the bundle is left in an
 // inconsistent state and must not be used for any other calls.
 func (b *Builder) AddRemoteSource(ctx context.Context, addr sourceaddrs.RemoteSource, depFinder DependencyFinder) Diagnostics {
+	verifSched(ctx, "begin")
 	if b.targetDir == "" {
 		// The builder has been closed, so cannot be modified further.
 		// This is always a bug in the caller, which should discard a builder
@@ -133,6 +134,7 @@ func (b *Builder) AddRemoteSource(ctx context.Context, addr sourceaddrs.RemoteSo
 	}
 
 	af := remoteArtifact{addr, depFinder}
+	verifSched(ctx, "push")
 	b.mu.Lock()
 	if _, exists := b.analyzed[af]; exists {
 		// Nothing further to do with this one, then.
@@ -161,6 +163,7 @@ func (b *Builder) AddRemoteSource(ctx context.Context, addr sourceaddrs.RemoteSo
 // If the returned diagnostics contains errors then the bundle is left in an
 // inconsistent state and must not be used for any other calls.
 func (b *Builder) AddRegistrySource(ctx context.Context, addr sourceaddrs.RegistrySource, allowedVersions versions.Set, depFinder DependencyFinder) Diagnostics {
+	verifSched(ctx, "begin")
 	if b.targetDir == "" {
 		// The builder has been closed, so cannot be modified further.
 		// This is always a bug in the caller, which should discard a builder
@@ -168,6 +171,7 @@ func (b *Builder) AddRegistrySource(ctx context.Context, addr sourceaddrs.Regist
 		panic("AddRegistrySource on closed sourcebundle.Builder")
 	}
 
+	verifSched(ctx, "push")
 	b.mu.Lock()
 	b.pendingRegistry = append(b.pendingRegistry, registryArtifact{addr, allowedVersions, depFinder})
 	b.mu.Unlock()
@@ -229,6 +233,7 @@ func (b *Builder) Close() (*Bundle, error) {
 // that everything required is present in the bundle directory, both directly
 // and indirectly.
 func (b *Builder) resolvePending(ctx context.Context) (diags Diagnostics) {
+	verifSched(ctx, "drain")
 	b.mu.Lock()
 	defer func() {
 		// If anything we do here generates any errors then the bundle
@@ -238,6 +243,7 @@ func (b *Builder) resolvePending(ctx context.Context) (diags Diagnostics) {
 			b.targetDir = ""
 		}
 
+		verifSched(ctx, "unlock")
 		b.mu.Unlock()
 	}()
 
